@@ -1483,7 +1483,10 @@ pub trait PayloadSource: Sized {
     spec fn spec_full(&self) -> (State, Seq<ItemView>);
     spec fn spec_diff(&self, state: State) -> Option<(State, Seq<Item>)>;
     spec fn spec_timing(&self) -> Timing;
+    spec fn spec_notify(&self) -> State;
     fn ready(&self) -> (r: bool) ensures r == self.spec_ready();
+    /// the state the source currently announces (trait method `notify`; unused by reset/serial today)
+    fn notify(&self) -> (r: State) ensures r == self.spec_notify();
     fn full(&self) -> (r: (State, Self::Set))
         ensures r.0 == self.spec_full().0, r.1.remaining() == self.spec_full().1;
     fn diff(&self, state: State) -> (r: Option<(State, Self::Diff)>)
